@@ -29,7 +29,7 @@ from hypothesis import strategies as st
 
 import partitura.score as S
 from partitura.io.exportmatch import save_match
-from partitura.io.importmatch import load_match, load_matchfile
+from partitura.io.importmatch import load_match
 from pbt.core import Outcome, SubCheck, SutRaised, call, load_known_findings
 from pbt.gen import c08_align as A
 from pbt.gen import scorespec as G
@@ -372,10 +372,23 @@ def oracle(spec):
             "import-beats-to-quarters-with-beat-type-change" in _OPEN and sr.t_beat_type_change()
         ):
             wd = SHORT_WATCHDOG_S
+        # inputs whose score cannot be carried exactly by the format (see ASSUMPTIONS) are loaded without a score
+        not_judged = None
+        if sr.beyond_bound():
+            not_judged = "fraction-beyond-1024-bound"
+        elif not sr.pickup_on_grid():
+            not_judged = "pickup-length-not-on-the-grid-of-written-fractions"
+        if not_judged:
+            o.excluded.append(not_judged)
         try:
-            perf, al2, scr = guarded(load_match, out, create_score=True, _watchdog=wd)
+            if not_judged:
+                perf, al2 = guarded(load_match, out, create_score=False)
+            else:
+                perf, al2, scr = guarded(load_match, out, create_score=True, _watchdog=wd)
         except SutRaised as e:
-            o.add("load-score-" + e.kind, text=e.text)
+            o.add(("load-" if not_judged else "load-score-") + e.kind, text=e.text)
+            if not_judged:
+                return o
             try:
                 perf, al2 = guarded(load_match, out, create_score=False)
             except SutRaised as e2:
@@ -535,12 +548,6 @@ def oracle(spec):
 
     # ---- score ----------------------------------------------------------------------------------------
     if scr is None:
-        return o
-    if sr.beyond_bound():
-        o.excluded.append("fraction-beyond-1024-bound")
-        return o
-    if not sr.pickup_on_grid():
-        o.excluded.append("pickup-length-not-on-the-grid-of-written-fractions")
         return o
     parts2 = list(scr.parts)
     if len(parts2) != 1:
@@ -753,6 +760,8 @@ SUBCHECKS = [
 # sub-check 2: the fixture files of the test-suite, read by an independent line reader
 # ----------------------------------------------------------------------------------------------
 FIXTURE_DIR = os.path.join(os.environ.get("VERIF_REPO", "/repo"), "tests", "data", "match")
+if not os.path.isdir(FIXTURE_DIR):  # a scratch copy of the package without the test data
+    FIXTURE_DIR = os.path.join("/repo", "tests", "data", "match")
 _STEP_PC = {"C": 0, "D": 2, "E": 4, "F": 5, "G": 7, "A": 9, "B": 11}
 _ALTER = {"n": 0, "#": 1, "b": -1, "##": 2, "x": 2, "bb": -2, "###": 3, "bbb": -3}
 
